@@ -224,7 +224,7 @@ _TRANS = {
     "C10": (["Gws.Props.TransHandshake"], ["TransEquiv.HttpHeaderContainsToken_eq", "TransEquiv.GetIntersectionElem_eq", "TransEquiv.requestChecks_eq",
                                           "TransEquiv.serverDecide_requestChecks", "TransEquiv.WithHeader_eq", "TransEquiv.keyAndAccept_eq", "TransEquiv.WithSubProtocol_eq"]),
     "C11": (["Gws.Props.TransHandshake"], ["TransEquiv.HttpHeaderContainsToken_eq", "TransEquiv.GetIntersectionElem_eq", "TransEquiv.InCollection_eq",
-                                          "TransEquiv.checkHeaders_eq", "TransEquiv.getSubProtocol_eq"]),
+                                          "TransEquiv.checkHeaders_eq", "TransEquiv.getSubProtocol_eq", "TransEquiv.request_headers_eq"]),
     "C05": (["Gws.Props.TransFrame", "Gws.Props.TransClose", "Gws.Props.TransWriter", "Gws.Props.TransCompress"],
             ["TransEquiv.SetLength_eq", "TransEquiv.GenerateHeader_eq", "TransEquiv.local_close_body_eq", "TransEquiv.genFrame_eq", "TransEquiv.stripTail_eq", "TransEquiv.compressData_eq"]),
     "C06": (["Gws.Props.TransClose"], _TC),
